@@ -309,6 +309,35 @@ static int app_ok(dses_t *s)
 	return 1;
 }
 
+
+/* internal projection of the IT decoder state (layer-B binding; diagnosis only) */
+static int g_itproj;
+static void emit_itproj(dses_t *s)
+{
+	if (!g_itproj || s->codec != 3 || s->role != 2 || !s->configured || (int)s->n > g_itproj || s->payload) return;
+	of_linear_binary_code_cb_t *cb = (of_linear_binary_code_cb_t *)s->ses;
+	if (!cb->pchk_matrix || !cb->tab_nb_unknown_symbols) return;
+	jb_printf(",\"it\":{\"unk\":[");
+	for (uint32_t i = 0; i < s->r; i++) jb_printf("%s%u", i ? "," : "", (unsigned)cb->tab_nb_unknown_symbols[i]);
+	jb_printf("],\"deg\":[");
+	for (uint32_t i = 0; i < s->r; i++) jb_printf("%s%u", i ? "," : "", (unsigned)cb->tab_nb_enc_symbols_per_equ[i]);
+	jb_printf("],\"ct\":[");
+	for (uint32_t i = 0; i < s->r; i++) jb_printf("%s%d", i ? "," : "", cb->tab_const_term_of_equ[i] != NULL);
+	jb_printf("],\"rows\":[");
+	for (uint32_t i = 0; i < s->r; i++) {
+		of_mod2entry *e; int first = 1;
+		jb_printf("%s[", i ? "," : "");
+		for (e = of_mod2sparse_first_in_row(cb->pchk_matrix, i); !of_mod2sparse_at_end(e); e = of_mod2sparse_next_in_row(e)) {
+			int col = e->col;
+			jb_printf("%s%d", first ? "" : ",", (col < (int)s->r) ? col + (int)s->k : col - (int)s->r); first = 0;
+		}
+		jb_printf("]");
+	}
+	jb_printf("],\"known\":[");
+	{ int first = 1; for (uint32_t i = 0; i < s->n; i++) if (cb->encoding_symbols_tab[i]) { jb_printf("%s%u", first ? "" : ",", i); first = 0; } }
+	jb_printf("]}");
+}
+
 static void emit_common(dses_t *s, int sid, int st)
 {
 	jb_printf(",\"st\":%d,\"cb\":[", st);
@@ -455,6 +484,7 @@ static void cmd_params(int sid, uint32_t k, uint32_t r, uint32_t len, uint32_t m
 		jb_printf(",\"lastnull\":%d", st2 == OF_STATUS_OK ? (int)(v[0] != 0) : -1);
 	}
 	jb_printf(",\"prng\":[%u,%u]", (unsigned)(of_seed >> 16), (unsigned)(of_seed & 0xFFFF));
+	if (s->configured) emit_itproj(s);
 	emit_common(s->configured ? s : NULL, sid, st);
 	jb_printf("}\n"); jb_flush();
 }
@@ -599,6 +629,7 @@ static void run_line(char *line)
 		of_status_t st = of_decode_with_new_symbol(s->ses, (s->configured && esi < s->n) ? s->cw[esi] : (void *)s, esi);
 		LIB_LEAVE();
 		jb_printf("{\"e\":\"Recv\",\"x\":%ld,\"s\":%d,\"esi\":%u", g_exec, sid, esi);
+		emit_itproj(s);
 		emit_common(s, sid, st); jb_printf("}\n"); jb_flush();
 	} else if (!strcmp(op, "setavail")) {
 		int *lst = calloc(s->n + 1, sizeof(int)); int nl = parse_list(na > 1 ? a[1] : NULL, lst, (int)s->n);
@@ -612,6 +643,7 @@ static void run_line(char *line)
 		jb_printf("{\"e\":\"SetAvail\",\"x\":%ld,\"s\":%d,\"set\":[", g_exec, sid);
 		for (int i = 0; i < nl; i++) jb_printf("%s%d", i ? "," : "", lst[i]);
 		jb_printf("],\"tab_ok\":%d", tab_ok);
+		emit_itproj(s);
 		free(tab); free(copy); free(lst);
 		emit_common(s, sid, st); jb_printf("}\n"); jb_flush();
 	} else if (!strcmp(op, "finish")) {
@@ -630,6 +662,13 @@ static void run_line(char *line)
 		cmd_gettab(sid, 0);
 	} else if (!strcmp(op, "release")) {
 		cmd_release(sid);
+	} else if (!strcmp(op, "expect")) {
+		/* expectation exported by the TLC behaviour generator; echoed into the trace for ApiTrace */
+		int *lst = calloc(s->n + 1, sizeof(int)); int nl = parse_list(na > 1 ? a[1] : NULL, lst, (int)s->n);
+		jb_printf("{\"e\":\"Expect\",\"x\":%ld,\"s\":%d,\"avail\":[", g_exec, sid);
+		for (int i = 0; i < nl; i++) jb_printf("%s%d", i ? "," : "", lst[i]);
+		jb_printf("],\"complete\":%d}\n", (int)AI(2)); jb_flush();
+		free(lst);
 	} else if (!strcmp(op, "ctrl")) {
 		UINT32 val[4] = { 0xDEADBEEF, 0xDEADBEEF, 0xDEADBEEF, 0xDEADBEEF };
 		LIB_ENTER(sid);
@@ -719,6 +758,7 @@ int main(int argc, char **argv)
 	g_progress[0] = 0;  /* index of the line at which the next child starts */
 	g_progress[1] = 0;  /* execution counter */
 	int fork_each = getenv("OF_DRIVER_FORK_EACH") != NULL;
+	g_itproj = getenv("OF_DRIVER_ITPROJ") ? atoi(getenv("OF_DRIVER_ITPROJ")) : 0;   /* max n for which the IT projection is logged */
 	int timeout_s = getenv("OF_DRIVER_EXEC_TIMEOUT") ? atoi(getenv("OF_DRIVER_EXEC_TIMEOUT")) : 300;
 	while ((size_t)g_progress[0] < nl) {
 		pid_t pid = fork();
